@@ -63,6 +63,11 @@ claimed = {
   ref="DESIGN.md §3 C17",
   bounds=["3 transactions, 2 addresses (symbolic), call sequences of length <=3 (quick) / <=4 (thorough)", "concurrent: 2 calls, preemption bound 1 (quick) / 2 (thorough), scheduling points at every cache call and mutex operation"],
   outside=["bigcache expiry/eviction (no expiry within a run); more than two overlapping calls", "msgpack encoding of the stored transaction (ideal codec)"]),
+ "C15": dict(
+  text="Every RPC handler of the notary (9), gossip (6 + the missing-parent fetch receive path) and webhooks (2) services is executed symbolically on every request shape the protobuf decoder can produce: every bytes field of symbolic length 0..40 (32 = hash size) with arbitrary content, strings empty or not, every sub-message / repeated element present or absent, collaborators (verifier, ledger, cache, flash memory, pipe, peers) answering nondeterministically. Every implicit Go panic condition (slice-to-array conversion, nil dereference, index, nil map ...) on every path is an SMT query; panics are identified by (function, source line text). A request refused at a verification step must have called no state-changing collaborator method.",
+  ref="DESIGN.md §3 C15",
+  bounds=["bytes fields 0..40 bytes, strings 0..1 bytes, repeated fields 0..2 elements (one possibly nil)", "one parent-fetch recursion level in the missing-parent path"],
+  outside=["the protobuf wire decoder and gRPC internals; real collaborators (doubles answer nondeterministically, which over-approximates them)", "updateDag's receive loop needs a live gRPC stream: only its validate+map step is covered", "requests rejected AFTER all checks passed but after state changed are recorded as known findings (KNOWN_FINDINGS.json), partitioned by (handler, failing collaborator)"]),
 }
 
 NA_DEFAULT = "check not built yet in this session; see DESIGN.md §6 build order"
